@@ -4,7 +4,7 @@
 From Coq Require Import ZArith Bool String Ascii.
 From Coq Require Import List.
 Import ListNotations.
-Require Import MV.Lib.Base MV.C04.Gen MV.C04.Model MV.C04.Geo MV.C04.Stl MV.C04.Ref.
+Require Import MV.Lib.Base MV.C04.Gen MV.C04.Model MV.C04.Geo MV.C04.Stl MV.C04.Ref MV.C04.GeoRef.
 Open Scope list_scope.
 Open Scope Z_scope.
 
@@ -207,3 +207,21 @@ Definition check_refwrite (c : fmt * zmesh * list zline * option zraw * option (
 (* a file written by mouette, and what the Python twin of the reference reader found in it *)
 Definition check_refread (c : fmt * list zline * option zraw) : bool :=
   let '(f, ls, obs) := c in oraw_eqb (ref_parse_fmt f ls) obs.
+
+(* ---- the count-driven geogram reader of GeoRef.v against its Python twin, on files written by mouette: the items found,
+   summarised as (0, set, "", "", n, 0) for an attribute set and (1, set, name, type, dimension, number of values) *)
+Definition gsummary (i : gitem Z (Z * Z)) : Z * string * string * string * Z * Z :=
+  match i with
+  | GAtts _ _ s n => (0, s, ""%string, ""%string, n, 0)
+  | GAttr s nm ty _ dim vals => (1, s, nm, ty, dim, zlen vals)
+  end.
+Definition gsummary_eqb (a b : Z * string * string * string * Z * Z) : bool :=
+  let '(k1, s1, n1, t1, d1, l1) := a in let '(k2, s2, n2, t2, d2, l2) := b in
+  (k1 =? k2) && String.eqb s1 s2 && String.eqb n1 n2 && String.eqb t1 t2 && (d1 =? d2) && (l1 =? l2).
+Definition check_georead (c : list zline * option (list (Z * string * string * string * Z * Z))) : bool :=
+  let '(ls, obs) := c in
+  match @ref_read_geo Z (Z * Z) (concat ls), obs with
+  | Some items, Some o => list_eqb gsummary_eqb (map gsummary items) o
+  | None, None => true
+  | _, _ => false
+  end.
